@@ -123,15 +123,15 @@ PROPS["C19"] = {
 
 _STREAM = ("streams are composed by rapid from a committed pool of classified PRNG samples (search guidance only; every oracle recomputes all results on the current tree): "
            "targets {pass count of a drawn item at allowed-1..allowed+2 failing samples, ten-bin Q histogram of a drawn item drawn from all partitions of s with uniformity P in [1e-6,1e-2] "
-           "in a drawn bin order, two items failing, 'mixed' (item i fails only the uniformity criterion with a two-bin histogram while a later item j fails only the pass count), 'one-bad' (all-pass samples plus exactly the tolerated number of stuck-at samples), random pool samples, all-pass samples, (periodic) 20 degree-63 LFSR samples that only the excluded items 13-15 reject}, samples shuffled, "
+           "in a drawn bin order, two items failing, 'half' (a two-sided item whose Q-values all lie in one half of [0,1]: the Q histogram fails while the P histogram would pass), 'mixed' (item i fails only the uniformity criterion with a two-bin histogram while a later item j fails only the pass count), 'one-bad' (all-pass samples plus exactly the tolerated number of stuck-at samples), random pool samples, all-pass samples, (periodic) 20 degree-63 LFSR samples that only the excluded items 13-15 reject}, samples shuffled, "
            "0 / 1 / sampleBytes-1 / sampleBytes / 3*sampleBytes trailing bytes (zero or random). ")
 RULES["C07"] = (_STREAM + "oracle: independent decision model (exact-integer threshold, own binning, big.Float igamc) over the registry runners' results on each sample: verdict equal, nil error iff true, "
                 "error names an item violating a criterion; (periodic) same outcome with and without the trailing bytes. non-trivial: some item's pass count in {t-1,t} or some item's uniformity P in [1e-5,1e-3]. "
                 "distinct: hash of the case JSON.")
 PROPS["C07"] = {
     "level": "exploration",
-    "quick": shards(6, "TestC07", 150, mode="period", floor=50) + [S("TestC07", 1, mode="poweron", floor=1, weight=2, env={"VERIF_TARGETS": tg}) for tg in ("one-bad", "passcount", "uniformity", "mixed", "two-items")]
-             + [S("TestC07", 1, mode="factory", floor=1, weight=2, env={"VERIF_TARGETS": tg}) for tg in ("one-bad", "uniformity")],
+    "quick": shards(6, "TestC07", 150, mode="period", floor=50) + [S("TestC07", 1, mode="poweron", floor=1, weight=2, env={"VERIF_TARGETS": tg}) for tg in ("one-bad", "passcount", "uniformity", "mixed", "half", "two-items")]
+             + [S("TestC07", 1, mode="factory", floor=1, weight=2, env={"VERIF_TARGETS": tg}) for tg in ("one-bad", "uniformity", "half")],
     "thorough": shards(6, "TestC07", 1500, mode="period", floor=500) + shards(7, "TestC07", 20, mode="poweron", floor=6, weight=2, timeout=3400)
                 + shards(3, "TestC07", 8, mode="factory", floor=3, weight=2, timeout=3400),
     "assumptions": ["the registry runners' per-sample results are taken as given (their correctness is C01-C05/C15/C16)",
